@@ -145,6 +145,23 @@ func fendOf(e string) (string, bool) {
 	return "", false
 }
 
+// maskedField reads rr.F or rr.F&0x7f / rr.F & 0x7f; the mask is 255 when absent.
+var reMasked = regexp.MustCompile(`^rr?1?\.(\w+)\s*&\s*(0x[0-9a-fA-F]+|\d+)$`)
+
+func maskedField(e string) (field, mask string, ok bool) {
+	if m := reMasked.FindStringSubmatch(e); m != nil {
+		v, err := strconv.ParseInt(m[2], 0, 64)
+		return m[1], strconv.FormatInt(v, 10), err == nil
+	}
+	if strings.HasPrefix(e, "rr.") && !strings.ContainsAny(e[3:], ".([& ") {
+		return e[3:], "255", true
+	}
+	if strings.HasPrefix(e, "r1.") && !strings.ContainsAny(e[3:], ".([& ") {
+		return e[3:], "255", true
+	}
+	return "", "", false
+}
+
 func compressFlag(e string) (string, bool) {
 	switch e {
 	case "compress":
@@ -181,9 +198,9 @@ func kindOfPack(fn string, args []string) (field, kind string, ok bool) {
 	case fn == "packIPSECGateway" && len(args) == 7 && args[2] == "msg" && args[3] == "off" && args[5] == "compression":
 		a, ok1 := fieldOf(args[0])
 		h, ok2 := fieldOf(args[1])
-		t, ok3 := fieldOf(args[4])
+		t, mask, ok3 := maskedField(args[4])
 		c, ok4 := compressFlag(args[6])
-		return h, "(K_gateway " + coqStr(t) + " " + coqStr(a) + " " + coqStr(h) + " " + c + ")", ok1 && ok2 && ok3 && ok4
+		return h, "(K_gateway " + coqStr(t) + " " + coqStr(a) + " " + coqStr(h) + " " + mask + " " + c + ")", ok1 && ok2 && ok3 && ok4
 	case strings.HasPrefix(fn, "pack") && len(args) == 3 && args[1] == "msg" && args[2] == "off":
 		f, ok1 := fieldOf(args[0])
 		base := strings.TrimPrefix(fn, "pack")
@@ -297,10 +314,12 @@ func transZmsg() (packs map[string][]pf, unpacks map[string][]uf, order []string
 			ok := false
 			if mm := reUnpack2.FindStringSubmatch(s); mm != nil && mm[3] == "unpackIPSECGateway" {
 				a := splitArgs(mm[4])
-				if len(a) == 3 && a[0] == "msg" && a[1] == "off" && strings.HasPrefix(a[2], "rr.") {
-					name = mm[2]
-					kind = "(K_gateway " + coqStr(a[2][3:]) + " " + coqStr(mm[1]) + " " + coqStr(mm[2]) + " false)"
-					ok = true
+				if len(a) == 3 && a[0] == "msg" && a[1] == "off" {
+					if tf, mask, ok3 := maskedField(a[2]); ok3 {
+						name = mm[2]
+						kind = "(K_gateway " + coqStr(tf) + " " + coqStr(mm[1]) + " " + coqStr(mm[2]) + " " + mask + " false)"
+						ok = true
+					}
 				}
 			} else if mm := reUnpack.FindStringSubmatch(s); mm != nil {
 				name = mm[1]
@@ -341,14 +360,53 @@ var (
 	reLenNsec    = regexp.MustCompile(`^l \+= typeBitMapLen\(rr\.(\w+)\)$`)
 	reLenFor     = regexp.MustCompile(`(?s)^for _, x := range rr\.(\w+) \{\s*(.*?)\s*\}$`)
 	reLenIf      = regexp.MustCompile(`(?s)^if len\(rr\.(\w+)\) != 0 \{\s*l \+= net\.IPv(4|6)len\s*\}$`)
-	reLenSwitch  = regexp.MustCompile(`(?s)^switch rr\.(\w+) \{\s*case (\w+):\s*l \+= net\.IPv4len\s*case (\w+):\s*l \+= net\.IPv6len\s*case (\w+):\s*l \+= len\(rr\.(\w+)\) \+ 1\s*\}$`)
+	reLenSwitch  = regexp.MustCompile(`(?s)^switch (rr\.\w+(?: & \w+)?) \{\s*case (\w+):\s*l \+= net\.IPv4len\s*case (\w+):\s*l \+= net\.IPv6len\s*case (\w+):\s*l \+= len\(rr\.(\w+)\) \+ 1\s*\}$`)
 	reLenForName = regexp.MustCompile(`^l \+= domainNameLen\(x, off\+l, compression, (true|false)\)$`)
 )
 
-func transLens(consts map[string]int64) (lens map[string][]string) {
-	f := parseFile("ztypes.go")
+// sumTerms translates `l += a + b + ...` where every summand is a literal,
+// len(rr.X) or len(rr.X)/2 (hand-written len methods in types.go).
+func sumTerms(typ, e string, tags map[string]string) ([]string, bool) {
+	var out []string
+	for _, t := range strings.Split(e, " + ") {
+		t = strings.TrimSpace(t)
+		switch {
+		case regexp.MustCompile(`^\d+$`).MatchString(t):
+			out = append(out, "L_const "+t)
+		case regexp.MustCompile(`^len\(rr\.(\w+)\)/2$`).MatchString(t):
+			out = append(out, "L_half "+coqStr(regexp.MustCompile(`^len\(rr\.(\w+)\)/2$`).FindStringSubmatch(t)[1]))
+		case regexp.MustCompile(`^len\(rr\.(\w+)\)$`).MatchString(t):
+			f := regexp.MustCompile(`^len\(rr\.(\w+)\)$`).FindStringSubmatch(t)[1]
+			if strings.Contains(tags[f], "base32") {
+				out = append(out, "L_b32text "+coqStr(f))
+			} else {
+				out = append(out, "L_len "+coqStr(f))
+			}
+		default:
+			return nil, false
+		}
+	}
+	return out, true
+}
+
+func transLens(consts map[string]int64, structs map[string][]sfield) (lens map[string][]string) {
 	lens = map[string][]string{}
-	for _, m := range methods(f, "len") {
+	var ms []method
+	for _, fn := range []string{"ztypes.go", "types.go"} {
+		ms = append(ms, methods(parseFile(fn), "len")...)
+	}
+	reSum := regexp.MustCompile(`^l \+= (.* \+ .*)$`)
+	for _, m := range ms {
+		if len(m.decl.Type.Params.List) != 2 {
+			continue // APLPrefix.len() and friends: not RR.len(off, compression)
+		}
+		if m.typ == "Question" {
+			continue // written by hand in the model (no RR header)
+		}
+		tags := map[string]string{}
+		for _, sf := range structs[m.typ] {
+			tags[sf.name] = sf.tag
+		}
 		var terms []string
 		for _, st := range m.decl.Body.List {
 			s := src(st)
@@ -360,6 +418,13 @@ func transLens(consts map[string]int64) (lens map[string][]string) {
 				terms = append(terms, "L_const "+reLenConst.FindStringSubmatch(s)[1])
 			case reLenStr1.MatchString(s):
 				terms = append(terms, "L_strlen1 "+coqStr(reLenStr1.FindStringSubmatch(s)[1]))
+			case reSum.MatchString(s) && !reLenStr1.MatchString(s):
+				ts, ok := sumTerms(m.typ, reSum.FindStringSubmatch(s)[1], tags)
+				if !ok {
+					untranslated("types.go", m.typ+".len", s)
+					continue
+				}
+				terms = append(terms, ts...)
 			case reLenLen.MatchString(s):
 				terms = append(terms, "L_len "+coqStr(reLenLen.FindStringSubmatch(s)[1]))
 			case reLenHalf.MatchString(s):
@@ -389,7 +454,12 @@ func transLens(consts map[string]int64) (lens map[string][]string) {
 					untranslated("ztypes.go", m.typ+".len", s)
 					continue
 				}
-				terms = append(terms, fmt.Sprintf("L_gateway %s %s %d %d %d", coqStr(mm[1]), coqStr(mm[5]), v4, v6, h))
+				tf, mask, okm := maskedField(mm[1])
+				if !okm {
+					untranslated("ztypes.go", m.typ+".len", s)
+					continue
+				}
+				terms = append(terms, fmt.Sprintf("L_gateway %s %s %s %d %d %d", coqStr(tf), mask, coqStr(mm[5]), v4, v6, h))
 			case reLenFor.MatchString(s):
 				mm := reLenFor.FindStringSubmatch(s)
 				body := strings.TrimSpace(mm[2])
@@ -580,7 +650,7 @@ var (
 	reDupFor     = regexp.MustCompile(`(?s)^for i := 0; i < len\(r1\.(\w+)\); i\+\+ \{\s*if (.*?) \{\s*return false\s*\}\s*\}$`)
 	reDupIP      = regexp.MustCompile(`(?s)^if !r1\.(\w+)\.Equal\(r2\.(\w+)\) \{\s*return false\s*\}$`)
 	reDupPairs   = regexp.MustCompile(`(?s)^if !areSVCBPairArraysEqual\(r1\.(\w+), r2\.(\w+)\) \{\s*return false\s*\}$`)
-	reDupGateway = regexp.MustCompile(`(?s)^switch r1\.(\w+) \{\s*case IPSECGatewayIPv4, IPSECGatewayIPv6:\s*if !r1\.(\w+)\.Equal\(r2\.(\w+)\) \{\s*return false\s*\}\s*case IPSECGatewayHost:\s*if !isDuplicateName\(r1\.(\w+), r2\.(\w+)\) \{\s*return false\s*\}\s*\}$`)
+	reDupGateway = regexp.MustCompile(`(?s)^switch (r1\.\w+(?: & \w+)?) \{\s*case IPSECGatewayIPv4, IPSECGatewayIPv6:\s*if !r1\.(\w+)\.Equal\(r2\.(\w+)\) \{\s*return false\s*\}\s*case IPSECGatewayHost:\s*if !isDuplicateName\(r1\.(\w+), r2\.(\w+)\) \{\s*return false\s*\}\s*\}$`)
 	reDupCast    = regexp.MustCompile(`^r2, ok := _r2\.\(\*(\w+)\)$`)
 	reDupEmb     = regexp.MustCompile(`^return r1\.(\w+)\.isDuplicate\(&r2\.(\w+)\)$`)
 )
@@ -631,7 +701,11 @@ func transDupBody(file, typ string, body *ast.BlockStmt) (cmps []string) {
 			if !same(m[2], m[3]) || !same(m[4], m[5]) {
 				untranslated(file, typ+".isDuplicate", s)
 			}
-			cmps = append(cmps, "D_gateway "+coqStr(m[1])+" "+coqStr(m[2])+" "+coqStr(m[4]))
+			tf, mask, okm := maskedField(m[1])
+			if !okm {
+				untranslated(file, typ+".isDuplicate", s)
+			}
+			cmps = append(cmps, "D_gateway "+coqStr(tf)+" "+mask+" "+coqStr(m[2])+" "+coqStr(m[4]))
 		case reDupFor.MatchString(s):
 			m := reDupFor.FindStringSubmatch(s)
 			f := m[1]
@@ -816,7 +890,7 @@ func main() {
 		os.Exit(2)
 	}
 	os.MkdirAll(*outDir, 0o755)
-	hdr := "(* GENERATED by tools/gotrans from /repo on every run — do not edit. *)\nFrom Dns Require Import Model.Tables.\nOpen Scope N_scope.\nOpen Scope string_scope.\n\n"
+	hdr := "(* GENERATED by tools/gotrans from /repo on every run — do not edit. *)\nFrom Dns Require Import Model.Tables.\nLocal Open Scope N_scope.\nLocal Open Scope string_scope.\n\n"
 
 	consts := constsOf([]string{"types.go", "msg.go", "edns.go", "svcb.go", "dns.go", "dnssec.go", "tsig.go", "scan.go", "xfr.go", "server.go", "client.go"})
 
@@ -993,7 +1067,7 @@ func main() {
 	writeIfChanged("Structs.v", b.String())
 
 	// --- Lens.v
-	lens := transLens(consts)
+	lens := transLens(consts, structs)
 	b.Reset()
 	b.WriteString(hdr)
 	b.WriteString("Definition lens : list tlen := [\n")
